@@ -37,16 +37,21 @@ C09_same_failure(G) ==
         /\ \A x \in DOMAIN Fin(G, p).execd : Fin(G, p).execd[x] <= Cnt(Fin(G, t).execd, x)
 
 (* C08: all report orders of one scenario (acyclic definition, outcome fixed per task) *)
-C08_status(G) == \A i, j \in 1..Len(G.members) : Fin(G, i).wf = Fin(G, j).wf
+(* Where a decision reads a variable written by concurrent branches, which branch runs depends on  *)
+(* arrival order by C06's own rule; such scenarios are outside this relation.                     *)
+C08_status(G) == ~ControlTainted(G.def) => \A i, j \in 1..Len(G.members) : Fin(G, i).wf = Fin(G, j).wf
 C08_executed(G) ==
+  ~ControlTainted(G.def) =>
   \A i, j \in 1..Len(G.members) :
      (Fin(G, i).wf = "succeeded" /\ Fin(G, j).wf = "succeeded") => Fin(G, i).execd = Fin(G, j).execd
 C08_published(G) ==
+  (~ControlTainted(G.def) /\ Tainted(G.def) = {}) =>
   \A i, j \in 1..Len(G.members) :
      (Fin(G, i).wf = "succeeded" /\ Fin(G, j).wf = "succeeded") => Fin(G, i).pubs = Fin(G, j).pubs
 C08_output(G) ==
   LET d == G.def
-      stable == {k \in 1..Len(d.output) : \A v \in DepVar(d.output[k][2]) : ~ConcurrentlyWritten(d, v)}
+      stable == IF ControlTainted(d) THEN {}
+                ELSE {k \in 1..Len(d.output) : \A v \in DepVar(d.output[k][2]) : v \notin Tainted(d)}
   IN \A i, j \in 1..Len(G.members) :
        (Fin(G, i).wf = "succeeded" /\ Fin(G, j).wf = "succeeded") =>
           \A k \in stable :
